@@ -237,6 +237,24 @@ type Gen struct {
 	ErrRate        int      // 1/ErrRate of operations deliberately ill-typed (0 = never)
 	Blocks         []string // types of completed toplevel blocks (for bind)
 	OneLineStrings bool     // no string literal whose value contains a line break
+	Used           []string // spellings of the numeric literals and names used so far in this program
+}
+
+// echo: a string literal (or block name) whose content is the spelling of a number or a name
+// used earlier in the same program - one text in two roles (constant pools, caches keyed by text)
+func (g *Gen) echo() (string, bool) {
+	if len(g.Used) == 0 || !g.chance(7) {
+		return "", false
+	}
+	g.count("echo-spelling")
+	return `"` + g.Used[g.r.Intn(len(g.Used))] + `"`, true
+}
+
+func (g *Gen) use(sp string) string {
+	if len(g.Used) < 64 {
+		g.Used = append(g.Used, sp)
+	}
+	return sp
 }
 
 func NewGen(r *rand.Rand) *Gen {
@@ -259,13 +277,13 @@ var floatSpellings = []string{"0.0", "1.0", "1.5", "0.5", "0.1", "2.25", "3.14",
 var badFloatSpellings = []string{"1e999", "1.8e308"}
 var strSpellings = []string{`""`, `"a"`, `"ab"`, `"hello world"`, `"x y"`, `"#not a comment"`, `"a;b"`, `"(p)"`, `"q\"uote"`, `"back\\slash"`, `"tab\there"`, `"nl\nx"`, `"\x41\x00"`, `"é"`, `"\U0001F600"`, `"\101\060"`, `"é世界"`, `"  lead"`, `"0"`, `"1.5"`, `"true"`, `"{}"`, `"\a\b\f\r\v"`, `"\xff"`,
 	// raw layout characters between the quotes: nothing inside a literal is layout
-	"\"a\rb\"", "\"x\ty\"", "\"v\vf\f.\"", "\"n\u0085l\"", "\"nb\u00a0sp\"", "\"cr\r#x;(\"", "\" \t \"", "\"\r\""}
+	"\"a\rb\"", "\"x\ty\"", `"100%"`, `"%d%s%v"`, `"%"`, `"%!s(MISSING)"`, "\"v\vf\f.\"", "\"n\u0085l\"", "\"nb\u00a0sp\"", "\"cr\r#x;(\"", "\" \t \"", "\"\r\""}
 var badStrSpellings = []string{`"\q"`, `"\x4"`, `"\u12"`, `"\400"`, `"\'"`}
 var varNames = []string{"a", "b", "c", "x", "y", "z", "tmp_1", "Foo", "_u", "x2", "t"}
 var fieldNames = []string{"f", "g", "h", "port", "host", "name", "x", "a", "max_conn", "Flag", "t", "u", "db"}
 // block types: some differ only in case or underscores (they are different types to bind)
 var typeNames = []string{"srv", "db", "t", "u", "conf", "f", "x", "srv_x", "SrvX", "srvx", "Srv", "SRV", "d_b"}
-var blockNames = []string{`"n1"`, `"n2"`, `"a b"`, `"é"`, `""`, `"x.y"`, `"q\"q"`, `"n1."`, `".n1"`, `"x.y."`, `"."`, `"n1.."`, "\"a\rb\"", "\"t\tb\""}
+var blockNames = []string{`"n1"`, `"n2"`, `"a b"`, `"é"`, `""`, `"x.y"`, `"q\"q"`, `"n1."`, `".n1"`, `"x.y."`, `"."`, `"n1.."`, "\"a\rb\"", "\"t\tb\"", `"50%"`, `"%s"`, `"1.5"`, `"0"`, `"x"`, `"srv"`, `"true"`}
 
 func (g *Gen) lit(kind string) Lit {
 	switch kind {
@@ -275,25 +293,28 @@ func (g *Gen) lit(kind string) Lit {
 			return Lit{"int", g.pick(badIntSpellings)}
 		}
 		if g.chance(4) {
-			return Lit{"int", fmt.Sprint(g.r.Intn(100000))}
+			return Lit{"int", g.use(fmt.Sprint(g.r.Intn(100000)))}
 		}
-		return Lit{"int", g.pick(intSpellings)}
+		return Lit{"int", g.use(g.pick(intSpellings))}
 	case "float":
 		if g.chance(60) {
 			g.count("lit.badfloat")
 			return Lit{"float", g.pick(badFloatSpellings)}
 		}
 		if g.chance(4) {
-			return Lit{"float", fmt.Sprintf("%d.%d", g.r.Intn(1000), g.r.Intn(1000))}
+			return Lit{"float", g.use(fmt.Sprintf("%d.%d", g.r.Intn(1000), g.r.Intn(1000)))}
 		}
 		if g.chance(6) {
-			return Lit{"float", fmt.Sprintf("%de%d", 1+g.r.Intn(99), g.r.Intn(40)-20)}
+			return Lit{"float", g.use(fmt.Sprintf("%de%d", 1+g.r.Intn(99), g.r.Intn(40)-20))}
 		}
-		return Lit{"float", g.pick(floatSpellings)}
+		return Lit{"float", g.use(g.pick(floatSpellings))}
 	case "str":
 		if g.chance(60) {
 			g.count("lit.badstr")
 			return Lit{"str", g.pick(badStrSpellings)}
+		}
+		if e, ok := g.echo(); ok {
+			return Lit{"str", e}
 		}
 		sp := g.pick(strSpellings)
 		for g.OneLineStrings && (strings.Contains(sp, `\n`) || strings.Contains(sp, `\r`) || strings.Contains(sp, `\v`) || strings.Contains(sp, `\f`) || strings.ContainsAny(sp, "\r\v\f\u0085")) {
@@ -532,6 +553,9 @@ func (g *Gen) expr1(sc *scope, want string, depth int) Expr {
 			}
 			return Unary{"not", g.expr(sc, "any", d)}
 		case 1, 2:
+			if g.chance(8) {
+				return g.nearPair()
+			}
 			op := g.pick([]string{"==", "!="})
 			ta, tb := g.anyType(), g.anyType()
 			if g.chance(2) {
@@ -552,6 +576,31 @@ func (g *Gen) expr1(sc *scope, want string, depth int) Expr {
 	default:
 		return g.leaf(sc, "nil")
 	}
+}
+
+// nearPair: a comparison of two numbers that lie next to each other where the number formats
+// change behaviour: integers beyond 2^53 (not all of them are float64 values), around 2^31, 2^32,
+// 2^63; an integer against the float next to it.  Integer comparison is exact; int against float
+// promotes the int.
+func (g *Gen) nearPair() Expr {
+	bases := []uint64{1 << 53, 1<<53 + 2, 1 << 62, 1<<63 - 2, 1 << 31, 1 << 32, 1<<24 + 1, 255, 1 << 60, 3002399751580331}
+	b := bases[g.r.Intn(len(bases))]
+	x := Lit{"int", fmt.Sprint(b + uint64(g.r.Intn(2)))}
+	var y Expr = Lit{"int", fmt.Sprint(b + uint64(g.r.Intn(2)))}
+	if g.chance(4) {
+		y = Lit{"float", fmt.Sprintf("%d.0", b+uint64(g.r.Intn(2)))}
+	}
+	var l, r Expr = x, y
+	if g.chance(2) {
+		l, r = y, x
+	}
+	if g.chance(3) {
+		l = Unary{"-", l}
+		r = Unary{"-", r}
+	}
+	op := g.pick([]string{"==", "!=", "<", "<=", ">", ">="})
+	g.count("expr.nearpair" + op)
+	return Binary{op, l, r}
 }
 
 func (g *Gen) stmts(sc *scope, n int, blockDepth int) []Stmt {
@@ -632,7 +681,11 @@ func (g *Gen) stmt(sc *scope, blockDepth int) Stmt {
 		name := ""
 		if g.chance(2) {
 			name = g.pick(blockNames)
+			if e, ok := g.echo(); ok {
+				name = e
+			}
 		}
+		g.use(typ)
 		if g.chance(80) {
 			name = `"\q"`
 		}
@@ -668,8 +721,12 @@ func (g *Gen) stmt(sc *scope, blockDepth int) Stmt {
 // Program generates a whole program.
 func (g *Gen) Program(nstmts int) []Stmt {
 	g.Blocks = nil
+	g.Used = nil
 	if g.chance(12) {
 		return g.bindFamily()
+	}
+	if g.chance(16) {
+		return g.declWalk()
 	}
 	if g.chance(14) {
 		return g.scopeFamily()
@@ -723,6 +780,65 @@ func (g *Gen) scopeFamily() []Stmt {
 		prog = append(prog, DefStmt{"db", "", []Stmt{PrintStmt{Ident{name}}}})
 	}
 	return prog
+}
+
+// declWalk: one or two names declared, shadowed, declared again, read and assigned along a
+// random walk through nested blocks: what a declaration after a closed inner scope meets (a
+// second declaration in the same scope is a compile error also when an inner block shadowed the
+// name in between; the same declaration is fine when only the inner block had it), what
+// `var x = x + 1` reads, what a name means once the block that declared it has closed.
+func (g *Gen) declWalk() []Stmt {
+	names := []string{g.pick(varNames)}
+	if g.chance(2) {
+		names = append(names, g.pick(varNames))
+	}
+	n := 0
+	lit := func() Expr { n++; return Lit{"int", fmt.Sprint(n)} }
+	var walk func(depth int, budget *int) []Stmt
+	walk = func(depth int, budget *int) []Stmt {
+		var out []Stmt
+		for *budget > 0 {
+			*budget--
+			nm := g.pick(names)
+			switch k := g.r.Intn(9); {
+			case k < 3:
+				var init Expr
+				switch g.r.Intn(3) {
+				case 0:
+					init = lit()
+				case 1:
+					init = Binary{"+", Ident{nm}, lit()} // reads the outer one, if any
+				}
+				out = append(out, VarStmt{nm, init})
+				g.count("declwalk.var")
+			case k == 3 || k == 4:
+				if depth < 3 {
+					n++
+					body := walk(depth+1, budget)
+					out = append(out, DefStmt{g.pick([]string{"t", "u"}), fmt.Sprintf("%q", fmt.Sprintf("b%d", n)), body})
+					g.count("declwalk.block")
+				}
+			case k == 5:
+				if depth > 0 {
+					return out
+				}
+			case k == 6:
+				out = append(out, PrintStmt{Ident{nm}})
+			case k == 7:
+				if depth > 0 {
+					out = append(out, ExprStmt{Assign{nm, lit()}})
+				} else {
+					out = append(out, EvalStmt{Assign{nm, lit()}})
+				}
+			default:
+				out = append(out, PrintStmt{Binary{"+", Ident{nm}, lit()}})
+			}
+		}
+		return out
+	}
+	b := 4 + g.r.Intn(12)
+	g.count("declwalk")
+	return walk(0, &b)
 }
 
 // bindFamily: one to seven toplevel blocks of one type (told apart by a field),
